@@ -98,8 +98,9 @@ def do_OP_CHECKLOCKTIMEVERIFY(vm: Any) -> None:
         raise ScriptError("empty stack on CHECKLOCKTIMEVERIFY")
     if len(vm.stack[-1]) > 5:
         raise ScriptError("script number overflow")
+    top = vm.stack[-1]
     max_lock_time = vm.pop_int()
-    vm.push_int(max_lock_time)
+    vm.append(top)  # the operand stays on the stack as it was encoded
     if max_lock_time < 0:
         raise ScriptError("top stack item negative on CHECKLOCKTIMEVERIFY")
     era_max = max_lock_time >= 500000000
@@ -143,8 +144,9 @@ def do_OP_CHECKSEQUENCEVERIFY(vm: Any) -> None:
         )
     if len(vm.stack[-1]) > 5:
         raise ScriptError("script number overflow", errno.INVALID_STACK_OPERATION + 1)
+    top = vm.stack[-1]
     sequence = vm.pop_int()
-    vm.push_int(sequence)
+    vm.append(top)  # the operand stays on the stack as it was encoded
     if sequence < 0:
         raise ScriptError(
             "top stack item negative on CHECKSEQUENCEVERIFY", errno.NEGATIVE_LOCKTIME
